@@ -30,7 +30,18 @@ PROFILE = P.profile(p_hibernation=0.7, levels_w={1: 0.3, 2: 5, 3: 5}, p_lsc_inje
 
 
 def gen(seed, tier):
-    return P.gen_plan(seed, PROFILE, PROP)
+    pl = P.gen_plan(seed, PROFILE, PROP)
+    opts = pl.get("options", {})
+    if "hibernation" not in opts and seed % 2 == 0:
+        # an earlier tree of the same process had hibernation on; this one leaves the key out (or passes no options)
+        import copy
+
+        o2 = copy.deepcopy(opts)
+        o2["hibernation"] = True
+        pl["preceded_by"] = [{"options": o2, "faults": {}, "omit_options": False}]
+        if not opts:
+            pl["omit_options"] = True
+    return pl
 
 
 def rng_state_digest():
